@@ -602,4 +602,23 @@ theorem procsFrom_proc (M : MM) (S : Script) : ∀ (vs : List Val) (k : Nat) (e 
         rfl
       · exact procsFrom_proc M S vs (k + 1) e h
 
+theorem procsFromMM_proc (S : Script) : ∀ (vs : List (MM × Val)) (k : Nat) (e : Ev),
+    e ∈ procsFromMM S k vs → e.isProc = true
+  | [], k, e, h => by simp [procsFromMM] at h
+  | mv :: vs, k, e, h => by
+      rw [procsFromMM] at h
+      rcases List.mem_append.1 h with h | h
+      · simp only [procEvents, List.mem_map] at h
+        obtain ⟨o, _, rfl⟩ := h
+        rfl
+      · exact procsFromMM_proc S vs (k + 1) e h
+
+/-- one metamodel for all models: the single-metamodel tail -/
+theorem procsFromMM_const (M : MM) (S : Script) : ∀ (vs : List Val) (k : Nat),
+    procsFromMM S k (vs.map (fun v => (M, v))) = procsFrom M S k vs
+  | [], k => by simp [procsFromMM, procsFrom]
+  | v :: vs, k => by
+      simp only [List.map_cons, procsFromMM, procsFrom]
+      rw [procsFromMM_const M S vs (k + 1)]
+
 end Proc
